@@ -19,15 +19,9 @@ from vlib import convcases as cc
 
 PID = "C03"
 
-# Findings reported but not yet repaired / registered, keyed by the exact shape of the input (props/C03/DEFECTS.md)
+# fallback texts for findings recognised by their exact shape (the registered entries of known_findings.json take over;
+# the former D8 / D28-D29 shapes are repaired in /repo and are ordinary violations again)
 PENDING = {
-    "D8-nested-cdata":
-        "SyncML vObject <Data> with more than one content item (CDATA section followed by text) comes back as nested CDATA "
-        "sections (`<![CDATA[..<![CDATA[..]]>]]>`): the result is not well-formed (xml_encode_text / CDATA handling, defect D8 of C05)",
-    "D27-xmlns-below-literal":
-        "language with namespace table: below a literal (unknown) element no xmlns is written for token elements, and for a literal "
-        "root xml_encode_tag reads the code page through the wrong union member: the result resolves to other tokens "
-        "(second iteration differs / binary-flagged namesakes) — patch props/C03/D27-fix.patch",
     "ddf-in-vobject-data-keepws":
         "test/tools/ddf/syncml_with_ddf-001.xml with keep-ws: a DM DDF sub-document inside a <Data> whose Meta Type says text/x-vcard "
         "is embedded by element name on the way in but treated as vObject text on the way back: raw WBXML octets inside CDATA",
@@ -334,7 +328,7 @@ def run(ctx):
     })
     for key, lst in known.items():
         if not ctx.report_known(key):
-            print("KNOWN-FINDING: property=%s %s [pending registration; %d cases, e.g. %s %s]" % (PID, PENDING[key], len(lst), lst[0]["source"], lst[0]["options"]), flush=True)
+            print("KNOWN-FINDING: property=%s %s [pending registration; %d cases, e.g. %s %s]" % (PID, PENDING.get(key, key), len(lst), lst[0]["source"], lst[0]["options"]), flush=True)
             ctx.known_hits.append(key)
     for v in violations[:6]:
         ctx.violation(v.pop("what"), {"replay_cmd": "bin/check C03 --replay <this file>", **v})
